@@ -278,3 +278,5 @@ func catch(f func()) (panicked bool, val any) {
 	f()
 	return
 }
+
+func jsonUnmarshal(b []byte, v any) error { return json.Unmarshal(b, v) }
